@@ -50,14 +50,14 @@ Definition is_ident_char (c : cp) : bool := is_ascii_alnum c || (c =? 45).
 Definition numeric_like (p : str) : bool :=
   all_b is_ascii_digit p && (match p with [c] => true | c :: _ => negb (c =? 48) | [] => true end).
 
-(* pre-release identifier: numeric identifiers must fit u64 (else the version is rejected) *)
+(* pre-release identifier: digits that do not fit u64 are kept as a string *)
 Definition parse_pre_ident (p : str) : option ident :=
   match p with
   | [] => None
   | _ =>
     if negb (all_b is_ident_char p) then None
     else if all_b is_ascii_digit p then
-      (if numeric_like p then match parse_u64 p with Some n => Some (IUInt n) | None => None end
+      (if numeric_like p then match parse_u64 p with Some n => Some (IUInt n) | None => Some (IStr p) end
        else None)                                  (* leading zeros: not in the grammar *)
     else Some (IStr p)
   end.
